@@ -628,6 +628,14 @@ def r4b_which_text_is_compared(ctx):
                 facts = [fa for fa in graph.guard_facts(dom, n) if fa.polarity in (True, False) and isinstance(fa.expr, ast.AST)]
                 noeval = next((fa.polarity for fa in facts if isinstance(fa.expr, ast.Compare) and 'NOT_EVALED' in fa.text and isinstance(fa.expr.ops[0], ast.Is)), None)
                 printed = next((fa.polarity for fa in facts if is_name(fa.expr, 'got_stdout')), None)
+                if printed is None:
+                    mod = [fa for fa in facts if isinstance(fa.expr, ast.Call) and isinstance(fa.expr.func, ast.Attribute) and is_name(fa.expr.func.value, 'got_stdout')
+                           and fa.expr.func.attr in ('strip', 'rstrip', 'lstrip', 'split')]
+                    if mod:
+                        rep.ob('C02.R4b', ctx.loc(f, mod[0].expr), '"nothing was printed" is decided on %s' % ctx.src(mod[0].expr), False,
+                               'whether anything was printed is decided on a stripped copy of the output: an example that prints only blank lines (`print()`) is treated as silent, and its want '
+                               '(`<BLANKLINE>`) is compared with repr(value) -- `None` -- instead of the output', anchor=q)
+                        return
                 failed_before = any(fa.polarity is False and isinstance(fa.expr, ast.Name) and fa.expr.id not in ('got_stdout',) for fa in facts)
                 # `flag = check_output(stdout ...) or check_output(repr ...)`: the second operand runs when the first was false
                 for fa in graph.short_circuit_facts(n.ast, c):
@@ -668,6 +676,7 @@ from ..selftest import fire, silent      # noqa: E402
 DE = 'xdoctest/doctest_example.py'
 CK = 'xdoctest/checker.py'
 VARIANTS = [
+    fire('blank-output-counts-as-no-output', 'C02.R4b', ('xdoctest/checker.py', "        if not got_stdout:\n", "        if not got_stdout.strip():\n")),
     fire('value-fallback-compares-stdout-again', 'C02.R4b', ('xdoctest/checker.py', "                try:\n                    got = repr(got_eval)\n                except Exception as ex:", "                try:\n                    pass\n                except Exception as ex:")),
     fire('value-fallback-not-compared', 'C02.R4b', ('xdoctest/checker.py', "                flag = check_output(got, want, runstate)\n                if not flag:\n                    got = got_stdout\n", "                if not flag:\n                    got = got_stdout\n")),
     fire('comment-test-on-raw-lines', 'C02.R5b', ('xdoctest/doctest_part.py', "            for line in slines\n", "            for line in self.exec_lines\n")),
